@@ -6,7 +6,8 @@ EXPLANATION = 'Mixed. P (discharged for every number of row groups and every row
 
 def p_parts():
     from ._partial import p_partial
-    return [p_partial]
+    from ._handles import p_handles
+    return [p_partial, p_handles]
 
 
 def run(ctx):
